@@ -578,7 +578,8 @@ def cases(ctx):
     rng = common.sub_rng(seed, "C15_spec")
     infos = []
 
-    # ---- corpus: the finding (IndexError on an empty word in option position) and its neighbours
+    # ---- corpus: regression of C15-S1 (IndexError on an empty word in option position, fixed by 4e949d4: the oracle
+    #      demands a dictionary or ValueError) and its neighbours
     for g, spec in [("simple", ["x", ""]), ("simple", ["gnp", ""]), ("dag", [""]), ("dag", ["", ""]),
                     ("bipartite", ["glrd", "1", "2", "3", "addedges", "", "save", "x"]),
                     ("simple", ["gnm", "10", "15", "save", ""]), ("simple", ["gnm", "10", "15", "save", "gml", ""]),
@@ -668,8 +669,6 @@ def search(ctx, case):
                       for i in range(len(info["spec"]))]
     for i2 in tries:
         c = build("gs_parse", i2)
-        if c.cls in ("gs:empty-word",):
-            continue
         r = common.run_oracle(c)
         if r is not None:
             return {"suite": "gs_parse", "info": i2, "failure": r}
@@ -677,9 +676,8 @@ def search(ctx, case):
 
 
 def search_global(ctx):
-    known_cls = {"gs:empty-word"}
     for c in cases({"tier": "quick", "seed": ctx.get("seed", 0), "prop": "C15"}):
-        if c.oracle is None or c.cls in known_cls:
+        if c.oracle is None:
             continue
         r = common.run_oracle(c)
         if r is not None:
